@@ -684,3 +684,53 @@ def c08_n6(ctx):
             yield ok("C08-N6", key, at(f, t["span"]["line"]), {"request_blocks": sorted(done)})
     if n == 0:
         raise Anchor("C08-N6", "has_naks() test in process_pdu")
+
+
+@rule("C08", "C08-N7", 2, "the number of requests that fit one NAK PDU is computed from the PDU's own layout: (budget - fixed part of the NAK's encoded_len) / encoded_len of one request")
+def c08_n7(ctx):
+    from lenforms import Lengths, Unknown, Form
+
+    f = ctx.one("C08-N7", "NegativeAcknowledgmentPDU::max_nak_num")
+    L = Lengths(ctx.prog)
+    eb = ExprBuilder(ctx.prog, f)
+    rets = [simp(eb._def_expr(d, 0, (0,))) for d in f.defs(0) if d[0] in ("assign", "call")]
+    nak_len = [g for g in ctx.prog.by_norm.values() if g.name == "encoded_len" and (g.impl_self_adt or "").endswith("NegativeAcknowledgmentPDU")]
+    req_len = [g for g in ctx.prog.by_norm.values() if g.name == "encoded_len" and (g.impl_self_adt or "").endswith("SegmentRequestForm")]
+    if len(rets) != 1 or len(nak_len) != 1 or len(req_len) != 1:
+        raise Anchor("C08-N7", "max_nak_num / NAK encoded_len / SegmentRequestForm encoded_len")
+    e = rets[0]
+    budget = [vn for vn, l, pj in f.var_places if not pj and l == 2]
+    try:
+        if not (e[0] == "binop" and e[1] == "Div"):
+            raise Unknown("max_nak_num is not a quotient: %s" % expr_str(e)[:120])
+        num, den = simp(e[2]), simp(e[3])
+        if num[0] == "proj" and num[1][0] == "binop":
+            num = ("binop", num[1][1].replace("WithOverflow", ""), num[1][2], num[1][3])
+        if num[0] == "call" and (callee_name(num) or "").split("::")[-1] in ("saturating_sub", "checked_sub", "wrapping_sub"):
+            num = ("binop", "Sub", num[3][0], num[3][1])
+        if not (num[0] == "binop" and num[1] == "Sub" and expr_str(simp(num[2])) in budget):
+            raise Unknown("numerator is not `budget - fixed part`: %s" % expr_str(num)[:160])
+        fixed = {x.key() for x in L.lin(simp(num[3]), f)}
+        per = {x.key() for x in L.lin(den, f)}
+        eg = ExprBuilder(ctx.prog, nak_len[0])
+        nak_forms = []
+        for d in nak_len[0].defs(0):
+            if d[0] in ("assign", "call"):
+                nak_forms.extend(L.lin(simp(eg._def_expr(d, 0, (0,))), nak_len[0]))
+        nak_fixed = {Form({a: c for a, c in x.t.items() if not a.startswith("S(")}).key() for x in nak_forms}
+        er = ExprBuilder(ctx.prog, req_len[0])
+        req_forms = set()
+        for d in req_len[0].defs(0):
+            if d[0] in ("assign", "call"):
+                req_forms |= {x.key() for x in L.lin(simp(er._def_expr(d, 0, (0,))), req_len[0])}
+    except Unknown as u:
+        yield undecided("C08-N7", "max_nak_num:shape", at(f), "not computable: %s" % u)
+        return
+    if fixed == nak_fixed:
+        yield ok("C08-N7", "max_nak_num:fixed-part", at(f), "budget reduced by %s = fixed part of the NAK PDU" % sorted(fixed))
+    else:
+        yield bad("C08-N7", "max_nak_num:fixed-part", at(f), "the budget is reduced by %s but a NAK PDU's fixed part (scope) is %s: a full NAK exceeds the configured size" % (sorted(fixed), sorted(nak_fixed)))
+    if per == req_forms:
+        yield ok("C08-N7", "max_nak_num:per-request", at(f), "divided by %s = encoded_len of one request" % sorted(per))
+    else:
+        yield bad("C08-N7", "max_nak_num:per-request", at(f), "divided by %s but one request takes %s" % (sorted(per), sorted(req_forms)))
